@@ -28,6 +28,12 @@ def call_with_super_check(wrapped: Callable[..., Any], *args: Any, **kwargs: Any
     self = wrapped.__self__  # type: ignore  # should actually be MethodType, but mypy does not handle this
     call_count = getattr(self, '_called', 0)
     self._called = call_count + 1
-    wrapped(*args, **kwargs)
+    try:
+        wrapped(*args, **kwargs)
+    except BaseException:
+        # the call did not complete: the calls that enclose it (a hook that was notifying listeners when one of them
+        # made the call that failed) must not find it still counted
+        self._called = call_count
+        raise
     msg = f"Base '{wrapped.__name__}' was not called from '{self.__class__}'\nHint: Did you forget to call the super?"
     assert self._called == call_count, msg
